@@ -8,8 +8,28 @@ PROPERTY = 'C05'
 ASSUMPTIONS = c04.ASSUMPTIONS
 
 
+from . import c10 as _c10
+from ..runner import Ob
+
+h_fail = _c10.h_fail            # a FAILED append is part of "any history": what it leaves must be well-formed too
+replay_fail = _c10.replay_fail
+
+
 def obligations(tier):
-    return c04.obligations(tier, mode='disk', prop='C05')
+    obs = c04.obligations(tier, mode='disk', prop='C05')
+    T = 900 if tier == 'thorough' else 300
+    fs = [dict(K=1, F=2, j=1, kind=kd, numtype=nt, bo='little', atom=at, indextype=it, qneg=None, silent=False)
+          for kd, nt, at, it in (('iterraise', 'int16', (), 'int64'), ('wrongatom', 'complex128', (2,), 'int64'),
+                                 ('unconvertible', 'float32', (), 'int64'))]
+    if tier == 'thorough':
+        fs += [dict(K=2, F=2, j=j, kind='iterraise', numtype='uint8', bo='little', atom=(3,), indextype='int64', qneg=None,
+                    silent=False) for j in (0, 1, 2)]
+    obs.append(Ob('R-failed-append', 'h_fail', splits=fs, timeout=T, replay='replay_fail',
+                  sym='l1..lK, k1, k2, q, probe',
+                  bounds='the directory after an iterappend that FAILED part-way (iterable raises / wrong atom / unconvertible '
+                         'item after one completed item), with value and index item sizes that differ: both sub-arrays '
+                         'well-formed, indices tile the values (harness shared with C10)'))
+    return obs
 
 
 def conformance(tier):
